@@ -97,7 +97,24 @@ func genC03(rt *rapid.T) C03Case {
 		o.Limit = 1000
 		o.AllPlatforms = true
 		if rapid.IntRange(0, 2).Draw(rt, "boosts") == 0 {
-			o.ContextBoosts = map[string]float64{genWord(rt, "bw"): rapid.SampledFrom([]float64{1.5, 2, 3, 0.5}).Draw(rt, "bf")}
+			// keys are looked up exactly as given: besides plain words, spellings that differ from a query word only in
+			// letter case or surrounding blanks (what a Makefile target or a script name looks like), and more than one key
+			o.ContextBoosts = map[string]float64{}
+			nb := rapid.SampledFrom([]int{1, 1, 2, 3}).Draw(rt, "nboosts")
+			for bi := 0; bi < nb; bi++ {
+				w := genWord(rt, "bw")
+				switch rapid.SampledFrom([]int{0, 0, 0, 1, 2, 3}).Draw(rt, "bwform") {
+				case 1:
+					if r := []rune(w); len(r) > 0 {
+						w = strings.ToUpper(string(r[:1])) + string(r[1:])
+					}
+				case 2:
+					w = strings.ToUpper(w)
+				case 3:
+					w = " " + w + " "
+				}
+				o.ContextBoosts[w] = rapid.SampledFrom([]float64{1.5, 2, 3, 0.5}).Draw(rt, "bf")
+			}
 		}
 		o.PipelineBoost = rapid.SampledFrom([]float64{0, 0, 1.5, 2}).Draw(rt, "pboost")
 		o.PipelineOnly = rapid.IntRange(0, 5).Draw(rt, "ponly") == 0
